@@ -110,6 +110,16 @@ fn run_giant(kind: u8, extra: u32, period: u8, rep: &mut Report) -> Result<(), F
                     ensure_eq!(w, want_w, "giant.int", "int({}, 64) of a periodic vector", i);
                 }
             }
+            // more than 16 MiB of payload through serialize and load (loaders that cap or chunk their allocation)
+            {
+                let mut bytes: Vec<u8> = Vec::with_capacity(8 * v.size_in_elements());
+                SdsSerialize::serialize(&v, &mut bytes).map_err(|e| Fail::new("giant.serialize", e.to_string()))?;
+                ensure_eq!(bytes.len(), 8 * v.size_in_elements(), "giant.serialize", "bytes written for a vector of {} bits", n);
+                let loaded = <RawVector as SdsSerialize>::load(&mut std::io::Cursor::new(&bytes[..])).map_err(|e| Fail::new("giant.load", format!("loading a raw vector of {} bits failed: {}", n, e)))?;
+                drop(bytes);
+                ensure!(loaded == v, "giant.load", "a raw vector of {} bits changed in a serialize/load round trip", n);
+                ensure_eq!(loaded.count_ones(), v.count_ones(), "giant.load", "count_ones after the round trip");
+            }
             rep.class("giant:raw-periodic");
         }
         _ => {
@@ -449,6 +459,19 @@ fn collect(t: u8, vals: &[u64]) -> IntVector {
 }
 
 fn extend(iv: &mut IntVector, t: u8, vals: &[u64]) {
+    // every other call passes an iterator whose size hint is (len, Some(len + 2^56)): a legal iterator, only the lower bound
+    // may be relied on for reserving space
+    if vals.len() % 2 == 1 {
+        let loose = || vals.iter().copied().chain((0..(1u64 << 56)).take_while(|_| false));
+        match t % 5 {
+            0 => iv.extend(loose().map(|v| v as u8)),
+            1 => iv.extend(loose().map(|v| v as u16)),
+            2 => iv.extend(loose().map(|v| v as u32)),
+            3 => iv.extend(loose()),
+            _ => iv.extend(loose().map(|v| v as usize)),
+        }
+        return;
+    }
     match t % 5 {
         0 => iv.extend(vals.iter().map(|&v| v as u8)),
         1 => iv.extend(vals.iter().map(|&v| v as u16)),
